@@ -157,6 +157,11 @@ func (x *Engine) verifyFunc(fs *FuncSpec, cs *Clause, prop string) (rep *FuncRep
 	}
 	rep.Replay = fs.Replay
 	rep.PkgDir = strings.TrimPrefix(strings.TrimPrefix(fs.Pkg, "github.com/alibaba/sentinel-golang"), "/")
+	if i := strings.Index(rep.Replay, "@"); i >= 0 {
+		// "template@dir": the replay test is injected into another package directory
+		rep.PkgDir = rep.Replay[i+1:]
+		rep.Replay = rep.Replay[:i]
+	}
 	// vacuity: the precondition must be satisfiable
 	cov := &Obl{Name: x.curFn + "#cover[requires]", Func: x.curFn, Kind: "cover", Label: "requires", Props: fs.Props, NScript: len(x.script), Goal: "false", Live: "true", Text: "precondition satisfiable", Expect: "sat"}
 	x.obls = append(x.obls, cov)
@@ -268,7 +273,7 @@ func (x *Engine) verifyFunc(fs *FuncSpec, cs *Clause, prop string) (rep *FuncRep
 	}
 	if fs.Panics == "never" {
 		for _, p := range fr.panics {
-			x.obligeNoAssume(&State{live: "true", h: map[string]string{}}, "nopanic", p.origin, notTerm(p.cond), "no panic escapes: "+p.origin, p.origin)
+			x.obligeNoAssume(&State{live: "true", h: map[string]string{}}, "nopanic", stableOrigin(p.origin), notTerm(p.cond), "no panic escapes: "+p.origin, p.origin)
 		}
 	}
 	rep.Obls = x.obls
@@ -400,4 +405,25 @@ func (x *Engine) frameObligations(fr *Frame, fs *FuncSpec, ret *State, env map[s
 		}
 		x.obligeNoAssume(ret, "frame", k, goal, "only declared locations change: "+k, "")
 	}
+}
+
+// stableOrigin names a panic exit by the kinds of its sources (no line numbers, so edits elsewhere do not rename it).
+func stableOrigin(o string) string {
+	seen := map[string]bool{}
+	var parts []string
+	for _, p := range strings.Split(o, "|") {
+		if i := strings.Index(p, "@"); i >= 0 {
+			p = p[:i]
+		}
+		if !seen[p] {
+			seen[p] = true
+			parts = append(parts, p)
+		}
+	}
+	sort.Strings(parts)
+	s := strings.Join(parts, ",")
+	if len(s) > 120 {
+		s = s[:120] + "..."
+	}
+	return s
 }
